@@ -207,7 +207,10 @@ def main(pid, tier):
                            invariants=INVARIANTS + ['Dump'])
             # every state is an initial state (generated sequentially), and
             # TLC re-evaluates the constant tables once per worker
-            res = run_tlc('MC_Ordering', cfg, scratch=build.dir, workers=1)
+            # (deep RECURSIVE sorting operators over the larger universes
+            # need a larger thread stack than the JVM default)
+            res = run_tlc('MC_Ordering', cfg, scratch=build.dir, workers=1,
+                          jvm='-Xss64m')
             name = '%s seed=%d NSets=%d MaxLen=%d' % (uname, sd, nsets,
                                                       maxlen)
             v.add_tlc(res, name)
